@@ -18,6 +18,17 @@ TEXT = {
  "C15": ("interval", "TLC proves on the bounded model that the order definition (member-wise <=) is a strict partial order consistent with "
          "equality on all triples, and validates partial_cmp and all comparison operators of the crate on every ordered pair x 9 element types.",
          "TLC model checking + exhaustive spec->impl replay + trace validation"),
+ "C13": ("interval", "TLC checks that the reference closed forms of scalar/interval arithmetic are sound, tight and well-formed on the bounded box, "
+         "enumerates every (interval, scalar, op) and every interval pair of the box plus relative_to on a dyadic grid, replays them on the crate (i32, f64) "
+         "and judges each recorded result by quantifying over the members of the operands (soundness, attained bounds, kind, documented panics).",
+         "TLC model checking + exhaustive spec->impl replay + trace validation"),
+ "C18": ("confidence", "TLC checks the Confidence algebra over level classes (validity by construction, involution, order laws) and validates every constructor "
+         "outcome (ok / panic / InvalidConfidenceLevel), accessor, flipped and comparison of the crate on class representatives incl. NaN, infinities, "
+         "subnormals and the neighbours of 0 and 1, judged on exact dyadic values of the f64 levels.",
+         "TLC model checking + exhaustive spec->impl replay + trace validation (exact dyadic arithmetic in TLA+)"),
+ "C19": ("interval", "Interval-level approximate equality must equal the kind-aware conjunction of the element-level results for every kind combination and "
+         "independently displaced bounds (TLC re-evaluates |x-y|<=eps exactly for the absolute mode); Display string checked against the canonical forms for all chain intervals x 9 types.",
+         "TLC generator + trace validation (exact dyadic arithmetic in TLA+)"),
 }
 PENDING_REASON = "check not built yet in this round (planned, see DESIGN.md section 4); not claimed"
 
@@ -53,6 +64,9 @@ def main():
             "add_only": True,
         },
         "engines": [
+            {"name": "confidence", "path": "spec/Confidence.tla spec/MC_Confidence.tla spec/Gen_Confidence.tla spec/Trace_Confidence.tla spec/Float.tla spec/BigNum.tla java/verif",
+             "serves_properties": ["C18"],
+             "kind_free_text": "TLA+ value algebra of Confidence over level classes / exact dyadic levels"},
             {"name": "interval", "path": "spec/Interval.tla spec/IntervalSession.tla spec/MC_Interval.tla spec/Gen_Interval.tla spec/Trace_Interval.tla",
              "serves_properties": ["C07", "C13", "C14", "C15", "C19"],
              "kind_free_text": "TLA+ value algebra of intervals as closed sets; TLC model check + generator + trace validator"},
